@@ -343,6 +343,9 @@ def query_axioms():
         z3.Not(z3.And(q_op(q) == OPS["not_"], q_kind(q_q1(q)) == 0, q_attr(q_q1(q)) == A_FIELDS)),
         exactq(q_q1(q)), z3.Implies(q_has2(q), exactq(q_q2(q))))), patterns=[exactq(q)]))
     A.append(forall([q], z3.Implies(simple, exactq(q) == q_hash_truthy(q)), patterns=[exactq(q)]))
+    # bool(q._hash) is the truthiness of the hash tuple
+    _H = sort_of(TU("H"))
+    A.append(forall([q], q_hash_truthy(q) == z3.Function("h_truthy", _H, z3.BoolSort())(z3.Function("q_hashv", _q, _H)(q)), patterns=[q_hash_truthy(q)]))
     # index-eligible simple queries: meaning through the index's own calls
     elig = z3.And(wfq(q), simple, q_hash_truthy(q))
     A.append(forall([q, p], z3.Implies(z3.And(elig, q_attr(q) == A_MEAS), sem(q, p) == q_test(q, uv_str(meas(p)))), patterns=[sem(q, p)]))
